@@ -96,10 +96,10 @@ class SolverSuite:
 DEFAULT_PARAMS = {"r": 2.0, "eps": 0.01, "itersLimit": 20000, "evolventDensity": 10, "refineSolution": False}
 
 
-def _maybe_company(rng, plan_actors, ops, max_iters=40):
+def _maybe_company(rng, plan_actors, ops, max_iters=40, force=False):
     """With some probability add a second solver whose steps are interleaved (top level).  Sometimes the two solvers
     are given ONE SolverParameters object (explicitly, or the library's default argument), as user code does."""
-    if rng.random() < 0.2:
+    if force or rng.random() < 0.2:
         s0 = plan_actors["S0"]
         dims = (1, 2, 3, 4, 5)
         plan_actors["S1"] = G.gen_actor(rng, max_iters=max_iters, shipped_prob=0.0, refine=False, dims=dims)
@@ -160,6 +160,10 @@ class C02(SolverSuite):
         ops = G.sprinkle_evq(rng, ops, "S0", spec)
         ops = G.sprinkle_clone(rng, ops, "S0")
         ops = _maybe_company(rng, actors, ops)
+        if rng.random() < 0.06 and "params_obj" not in spec:
+            # build, then tune, then solve: r is assigned on the parameters object before the first iteration
+            i0 = next(i for i, o in enumerate(ops) if o["a"] == "S0" and o["op"] == "create")
+            ops = ops[:i0 + 1] + [{"a": "S0", "op": "setp", "field": "r", "value": G.gen_r(rng)}] + ops[i0 + 1:]
         plan = gen_self_reads(rng, G.base_plan(self.prop, run_seed, actors, ops, clock=G.gen_clock(rng)))
         if rng.random() < 0.08:
             # a listener of the user fails once and the caller carries on: the completed iterations are all there, so the
@@ -254,6 +258,26 @@ class C03(SolverSuite):
         plan = G.base_plan(self.prop, run_seed, {"S0": spec}, ops, clock=G.gen_clock(rng))
         plan["edge"] = edge
         gen_self_reads(rng, plan)
+        if rng.random() < 0.15:
+            # company: a second solver (often of another dimension) is constructed / stepped in between
+            actors = plan["actors"]
+            plan["ops"] = _maybe_company(rng, actors, plan["ops"], force=True)
+        u = rng.random()
+        if u < 0.05:
+            # the very first evaluation fails once (nothing has been recorded yet): the caller simply starts again, and the run
+            # must then be exactly the fault-free run
+            plan["faults"] = [{"a": "S0", "at_eval": 1, "exc": rng.choice(["ValueError", "KeyboardInterrupt", "SimFault"]),
+                               "when": rng.choice(["before", "after"]), "persistent": False, "noargs": rng.random() < 0.3}]
+            plan["continue_after_fault"] = True
+            plan["ops"].append({"a": "S0", "op": "solve"})
+            return plan
+        if u < 0.09:
+            # a listener of the user fails once in BeforeMethodStart (nothing has happened yet), then the caller starts again
+            spec["listeners"] = [{"kind": "recording", "overrides": ["BeforeMethodStart"]}]
+            plan["lfaults"] = [{"a": "S0", "lid": 0, "cb": "BeforeMethodStart", "index": 1, "exc": rng.choice(["ValueError", "KeyboardInterrupt"])}]
+            plan["continue_after_fault"] = True
+            plan["ops"].append({"a": "S0", "op": "solve"})
+            return plan
         if rng.random() < 0.12:
             # fault configuration: the objective raises once - inside a DoGlobalIteration batch (the caller catches it) or
             # inside Solve (contained) - and the caller goes on to Solve: the budget must still bind
@@ -491,7 +515,13 @@ class C20(SolverSuite):
         if rng.random() < 0.7:
             spec["params"]["eps"] = G.EPS_MIN[spec["objective"]["N"]]
         pre = rng.choice([0, rng.randint(0, L)])
-        ops = G.gen_single_ops(rng, "S0", pre, with_solve=True, results_prob=0.05)
+        ops = G.gen_single_ops(rng, "S0", pre, with_solve=True, results_prob=0.05,
+                               after_solve_iters=rng.choice([0, 0, rng.randint(1, 15)]), refine_ops=rng.random() < 0.2)
+        if rng.random() < 0.15:
+            # refine in mid-search, then search on
+            k = rng.randrange(1, len(ops) + 1)
+            ops = ops[:k] + [{"a": "S0", "op": "refine", "n": rng.choice([5, 25, 50])}] + ops[k:] + \
+                [{"a": "S0", "op": "iterate", "k": rng.randint(1, 20)}]
         ops = G.sprinkle_evq(rng, ops, "S0", spec, prob=0.2)
         ops = G.sprinkle_clone(rng, ops, "S0", prob=0.08)
         actors = {"S0": spec}
@@ -507,6 +537,13 @@ class C20(SolverSuite):
                 ops1 = G.gen_single_ops(rng, aid, rng.choice([0, rng.randint(0, L1)]), with_solve=rng.random() < 0.7) if rng.random() < 0.8 \
                     else [{"a": aid, "op": "create"}]
                 ops = interleave(rng, [ops, ops1])
+        if rng.random() < 0.1:
+            # a many-dimensional solver is merely constructed first, on the very parameters object S0 is given afterwards
+            lo8, up8 = objectives.gen_box(rng, 8)
+            actors["S8"] = {"kind": "solver", "objective": objectives.gen_spec(rng, 8, lo8, up8, ["linear", "paraboloid"]), "lower": lo8, "upper": up8,
+                            "params": dict(spec["params"]), "listeners": [], "params_obj": "shared:P"}
+            spec["params_obj"] = "shared:P"
+            ops = [{"a": "S8", "op": "create"}] + ops
         return transient_fault_then_continue(rng, gen_self_reads(rng, G.base_plan(self.prop, run_seed, actors, ops, clock=G.gen_clock(rng))), prob=0.25, hi=L)
 
     def nontrivial_key(self, plan, w):
